@@ -1279,6 +1279,10 @@ seq_t dtw_warping_paths_ndim(seq_t *wps,
         for (idx_t i=ri_width; i<(ri_width + wpsi); i++) {
             wps[i] = INFINITY;
         }
+        if (p.ri2 == p.ri3 && ri < settings->psi_1b) {
+            // Rows are not shifted: the first cell is the border cell of the begin-relaxation
+            wps[ri_width] = 0;
+        }
         // PrunedDTW
         if (sc <= min_ci) {} else {
             for (; ci<sc; ci++) {
@@ -1661,6 +1665,10 @@ seq_t dtw_warping_paths_ndim_euclidean(seq_t *wps,
         wpsi = wpsi_start;
         for (idx_t i=ri_width; i<(ri_width + wpsi); i++) {
             wps[i] = INFINITY;
+        }
+        if (p.ri2 == p.ri3 && ri < settings->psi_1b) {
+            // Rows are not shifted: the first cell is the border cell of the begin-relaxation
+            wps[ri_width] = 0;
         }
         // PrunedDTW
         if (sc <= min_ci) {} else {
@@ -2075,6 +2083,10 @@ seq_t dtw_warping_paths_affinity_ndim(seq_t *wps,
         for (idx_t i=ri_width; i<(ri_width + wpsi); i++) {
             wps[i] = -INFINITY;
         }
+        if (p.ri2 == p.ri3 && ri < settings->psi_1b) {
+            // Rows are not shifted: the first cell is the border cell of the begin-relaxation
+            wps[ri_width] = 0;
+        }
         if (only_triu) {
             if (ci < ri) {
                 for (; ci<ri; ci++) {
@@ -2418,6 +2430,10 @@ seq_t dtw_warping_paths_affinity_ndim_euclidean(seq_t *wps,
         wpsi = wpsi_start;
         for (idx_t i=ri_width; i<(ri_width + wpsi); i++) {
             wps[i] = -INFINITY;
+        }
+        if (p.ri2 == p.ri3 && ri < settings->psi_1b) {
+            // Rows are not shifted: the first cell is the border cell of the begin-relaxation
+            wps[ri_width] = 0;
         }
         if (only_triu) {
             if (ci < ri) {
